@@ -107,7 +107,7 @@ def find_impl_blocks(src, kind, owner, trait=None):
             tname = tm.group(1).split('::')[-1] if tm else t
         if oname != owner:
             continue
-        if (trait or None) != tname:
+        if trait != '*' and (trait or None) != tname:
             continue
         out.append((j, match_brace(src, kind, j)))
     return out
@@ -421,12 +421,14 @@ def splice_fn(fid, text, sections, opts):
     return out
 
 
-def assemble(template_path, repo, vacuity=False, lenient=False):
+def assemble(template_path, repo, vacuity=False, lenient=False, auto=None):
     LENIENT['on'] = lenient
     LENIENT['dropped'] = []
     try:
         text, meta = _assemble(template_path, repo, vacuity)
         meta['dropped_anchors'] = list(LENIENT['dropped'])
+        if auto:
+            text = add_auto_helpers(text, meta, repo, auto)
         return text, meta
     finally:
         LENIENT['on'] = False
@@ -669,6 +671,52 @@ def _assemble(template_path, repo, vacuity=False):
         text = re.sub(r'\bpub(\([^)]*\))?\s+(?!assume_specification)(open\s+|closed\s+)?', '', text)
         text = re.sub(r'\b(open|closed)\s+spec\s+fn', 'spec fn', text)
     return text, meta
+
+
+def add_auto_helpers(text, meta, repo, auto):
+    """auto: list of (owner_or_None, name) reported missing by rustc. Helper functions that a changed /repo introduced are
+    extracted verbatim (builtin rewrites, visibility stripped, no contract) and appended, so that the unit still compiles."""
+    files = []
+    for f in meta['functions']:
+        if f['file'] not in files and f['file'].endswith('.rs'):
+            files.append(f['file'])
+    added = []
+    chunks = []
+    for owner, name in auto:
+        for rel in files:
+            try:
+                src, kind, (fname, s0, b0, e0) = locate_fn(repo, rel, owner or '-', name, '*' if owner else None)
+            except LostAnchor:
+                continue
+            t = strip_comments(src[s0:e0 + 1])
+            log = []
+            t = apply_rewrites(t, BUILTIN_RW, log, name, required=False)
+            t = re.sub(r'\bpub(\([^)]*\))?\s+', '', t)
+            t = re.sub(r'\b(PagedReader|PagedWriter)<T>', r'\1', t)
+            t = re.sub(r"\b(QueueReader|PointCloudWriter|PointCloudReaderRaw|PointCloudReaderSimple)<'a, T>", r"\1<'a>", t)
+            # a helper whose body is one side-effect-free arithmetic expression gets the contract `result == that expression`
+            # (mechanically derived; overflow inside it is still checked by Verus in the helper itself)
+            mm = re.match(r'^(fn\s+\w+\s*\([^)]*\))\s*->\s*([\w:<>]+)\s*\{\s*([^;{}]+?)\s*\}\s*$', t, re.S)
+            inferred = False
+            if mm and re.match(r'^[\w\s+\-*/%()<>=!&|:.,]+$', mm.group(3)) and not re.search(r'[A-Za-z_]\w*\s*\(', re.sub(r'\bas\s+\w+', '', mm.group(3))) \
+                    and '&mut' not in mm.group(1) and 'self' not in mm.group(1):
+                t = '%s -> (r: %s)\n    ensures r == (%s)\n{ %s }' % (mm.group(1), mm.group(2), mm.group(3), mm.group(3))
+                inferred = True
+            meta.setdefault('auto_uncontracted', [])
+            if not inferred:
+                meta['auto_uncontracted'].append(name)
+            hdr = None
+            if owner:
+                mh = re.search(r"^impl(<[^>]*>)?\s+%s(<[^>]*>)?\s*\{" % re.escape(owner), text, re.M)
+                hdr = mh.group(0) if mh else 'impl %s {' % owner
+            chunks.append(('%s\n%s\n}\n' % (hdr, t)) if owner else t + '\n')
+            added.append('%s%s (%s)' % ((owner + '::') if owner else '', name, rel))
+            break
+    meta['auto_included'] = added
+    if not chunks:
+        return text
+    idx = text.rindex('} // verus!')
+    return text[:idx] + '// ---- helper functions newly found in /repo, extracted without contract ----\n' + ''.join(chunks) + text[idx:]
 
 
 def count_clauses(sections):
